@@ -1,41 +1,20 @@
 (* Write succeeds on "good" names: a set of distinct, prefix-free relative paths made of
    real, NUL-free elements, written into a directory that exists and holds nothing.
-   This is the file-system half of the txtar-c / txtar-x round trip (SavedirFacts.v). *)
+   This is the file-system half of the txtar-c / txtar-x round trip (SavedirFacts.v).
+   The directory may be named by any string (absolute or relative): the proofs are written
+   against a "string builder" [mk] that gives, for a list q of elements below the
+   directory, the string Write hands to the system calls for it; [mk_abs] and [mk_rel]
+   at the end of the file are the two builders. *)
 From Coq Require Import List Bool Arith Lia Permutation.
 From Coq.Strings Require Import Byte.
 From GI Require Import Lib.Bytes Txtar.Txtar
-  TxtarWrite.Path TxtarWrite.TxtarWrite TxtarWrite.PathFacts TxtarWrite.WriteFacts.
+  TxtarWrite.Path TxtarWrite.TxtarWrite TxtarWrite.PathFacts TxtarWrite.WriteFacts
+  TxtarWrite.NulFacts TxtarWrite.FuelFacts TxtarWrite.RelFacts.
 Import ListNotations.
 
-Definition nul_free (c : bytes) : Prop := ~ In NUL c.
 Definition proper (p q : path) : Prop := within p q /\ p <> q.
 
 (* ------------------------------------------------------------------ small facts *)
-
-Lemma mem_byte_not_in b c : ~ In b c -> mem_byte b c = false.
-Proof.
-  unfold mem_byte. induction c as [|x c IH]; intros H; simpl; auto.
-  rewrite IH by (intros HI; apply H; right; auto).
-  destruct (beq b x) eqn:E; auto. apply beq_eq in E. exfalso. apply H. left. auto.
-Qed.
-
-Lemma mem_byte_app b x y : mem_byte b (x ++ y) = mem_byte b x || mem_byte b y.
-Proof. unfold mem_byte. apply existsb_app. Qed.
-
-Lemma has_nul_render' P : Forall nul_free P -> has_nul (render' P) = false.
-Proof.
-  induction P as [|c P IH]; intros H; [reflexivity|]. inversion H; subst.
-  unfold has_nul in *. change (render' (c :: P)) with ((SEP :: c) ++ render' P).
-  rewrite mem_byte_app, IH by auto. rewrite orb_false_r.
-  change (SEP :: c) with ([SEP] ++ c). rewrite mem_byte_app, (mem_byte_not_in NUL c) by auto.
-  reflexivity.
-Qed.
-
-Lemma has_nul_render_true P : Forall nul_free P -> has_nul (render true P) = false.
-Proof.
-  intros H. destruct P as [|c P]; [reflexivity|].
-  rewrite render_true by discriminate. apply has_nul_render'. auto.
-Qed.
 
 Lemma within_length p q : within p q -> length p <= length q.
 Proof. intros [r ->]. rewrite app_length. lia. Qed.
@@ -119,22 +98,21 @@ Qed.
 Section Dirs.
 Variable cwd : path.
 
-Lemma lookup_render fs Q :
-  Forall real Q -> Forall nul_free Q ->
-  lookup_path cwd fs (render true Q) =
+Lemma lookup_str fs s Q :
+  has_nul s = false -> s <> [] -> resolve cwd s = Q ->
+  lookup_path cwd fs s =
     match walk_parents fs [] Q with Some e => inl e | None => inr Q end.
 Proof.
-  intros HR HN. unfold lookup_path. rewrite has_nul_render_true by auto.
-  destruct (render true Q) as [|b s] eqn:E; [destruct Q; discriminate|].
-  rewrite <- E. rewrite resolve_render_true by auto. reflexivity.
+  intros HN Hne HR. unfold lookup_path. rewrite HN.
+  destruct s as [|b s]; [contradiction|]. rewrite HR. reflexivity.
 Qed.
 
-Lemma lookup_render_ok fs Q :
-  Forall real Q -> Forall nul_free Q ->
+Lemma lookup_str_ok fs s Q :
+  has_nul s = false -> s <> [] -> resolve cwd s = Q ->
   (forall k, proper k Q -> get fs k = Some Dir) ->
-  lookup_path cwd fs (render true Q) = inr Q.
+  lookup_path cwd fs s = inr Q.
 Proof.
-  intros HR HN H. rewrite lookup_render by auto.
+  intros HN Hne HR H. rewrite (lookup_str fs s Q) by auto.
   rewrite walk_parents_ok; [reflexivity|]. intros k Hk _. simpl. auto.
 Qed.
 
@@ -163,61 +141,75 @@ Lemma mkdir_all_S f fs s :
     end.
 Proof. reflexivity. Qed.
 
-Lemma mkdir_all_good : forall n Q f fs,
-  length Q <= n -> n < f -> Forall real Q -> Forall nul_free Q ->
-  (forall p x, get fs p = Some x -> within p Q -> x = Dir) ->
-  (forall p, within p Q -> get fs p <> None -> forall k, proper k p -> get fs k = Some Dir) ->
-  exists fs', mkdir_all f cwd fs (render true Q) = (fs', WOk) /\
-              (forall p, within p Q -> get fs' p = Some Dir) /\
-              ext (fun p n => n = Dir /\ within p Q) fs fs'.
+(* the directory written into, and the strings that name what lies below it *)
+Variable D : path.
+Variable mk : list bytes -> bytes.
+Definition okq (q : list bytes) : Prop := Forall real q /\ Forall nul_free q.
+Hypothesis mk_nul : forall q, okq q -> has_nul (mk q) = false.
+Hypothesis mk_ne : forall q, okq q -> mk q <> [].
+Hypothesis mk_res : forall q, okq q -> resolve cwd (mk q) = D ++ q.
+Hypothesis mk_parent : forall q c, okq (q ++ [c]) ->
+  parent_str (mk (q ++ [c])) = mk q \/ (parent_str (mk (q ++ [c])) = [] /\ q = []).
+Hypothesis mk_dir : forall q c, okq (q ++ [c]) -> dir_of (mk (q ++ [c])) = mk q.
+
+Lemma okq_snoc q c : okq (q ++ [c]) -> okq q.
+Proof. intros [H1 H2]. apply Forall_app in H1. apply Forall_app in H2. split; tauto. Qed.
+
+Lemma nonempty_true s : s <> [] -> nonempty s = true.
+Proof. destruct s; [contradiction|reflexivity]. Qed.
+
+Lemma within_D_app p q c : within p (D ++ q) -> within p (D ++ q ++ [c]).
+Proof. intros [r E]. exists (r ++ [c]). rewrite (app_assoc p), <- E, <- app_assoc. reflexivity. Qed.
+
+Lemma mkdir_all_good : forall q f fs,
+  length (mk q) < f -> okq q -> dir_exists fs D ->
+  (forall p x, get fs p = Some x -> within p (D ++ q) -> x = Dir) ->
+  (forall p, within p (D ++ q) -> get fs p <> None -> forall k, proper k p -> get fs k = Some Dir) ->
+  exists fs', mkdir_all f cwd fs (mk q) = (fs', WOk) /\
+              (forall p, within p (D ++ q) -> get fs' p = Some Dir) /\
+              ext (fun p n => n = Dir /\ within p (D ++ q)) fs fs'.
 Proof.
-  induction n as [|n IH]; intros Q f fs HL Hf HR HN H1 H2.
-  - destruct Q; [|simpl in HL; lia]. destruct f; [lia|].
-    exists fs. split; [reflexivity|]. split; [|apply ext_refl].
-    intros p Hp. apply within_nil in Hp. subst. reflexivity.
-  - destruct (snoc_cases Q) as [->|[Q' [c EQ]]].
-    { destruct f; [lia|]. exists fs. split; [reflexivity|]. split; [|apply ext_refl].
-      intros p Hp. apply within_nil in Hp. subst. reflexivity. }
-    destruct f as [|f]; [lia|].
-    assert (HR' := HR). assert (HN' := HN). rewrite EQ in HR', HN'.
-    apply Forall_app in HR'. destruct HR' as [HRQ' HRc]. pose proof (Forall_inv HRc) as Hc.
-    apply Forall_app in HN'. destruct HN' as [HNQ' _].
-    assert (HLQ' : length Q' <= n) by (rewrite EQ, app_length in HL; simpl in HL; lia).
+  induction q as [|c q IH] using rev_ind; intros f fs Hf Hq HD H1 H2.
+  - rewrite app_nil_r in *. destruct f as [|f]; [lia|].
+    exists fs. split; [|split; [auto|apply ext_refl]].
+    rewrite mkdir_all_S. unfold os_stat.
+    assert (E0 : resolve cwd (mk []) = D) by (rewrite mk_res by auto; apply app_nil_r).
+    rewrite (lookup_str_ok fs (mk []) D (mk_nul _ Hq) (mk_ne _ Hq) E0 (fun k Hk => HD k (proj1 Hk))).
+    rewrite (HD D (within_refl D)). reflexivity.
+  - destruct f as [|f]; [lia|].
+    pose proof (okq_snoc _ _ Hq) as Hq'.
+    set (Q := D ++ q ++ [c]) in *.
+    assert (EQ : Q = (D ++ q) ++ [c]) by (unfold Q; rewrite app_assoc; reflexivity).
+    assert (ER : resolve cwd (mk (q ++ [c])) = Q) by (apply mk_res; auto).
     destruct (get fs Q) as [x|] eqn:EG.
-    + (* it exists: a directory with all its parents *)
-      assert (x = Dir) by (eapply H1; [exact EG|apply within_refl]). subst x.
+    + assert (x = Dir) by (eapply H1; [exact EG|apply within_refl]). subst x.
       assert (HP : forall k, proper k Q -> get fs k = Some Dir).
       { intros k Hk. eapply H2; [apply within_refl|congruence|exact Hk]. }
       exists fs. split; [|split; [|apply ext_refl]].
-      * rewrite mkdir_all_S. unfold os_stat. rewrite lookup_render_ok by auto. rewrite EG. reflexivity.
-      * intros p Hp. destruct (within_snoc p Q' c) as [E|HW]; [rewrite <- EQ; exact Hp| |].
+      * rewrite mkdir_all_S. unfold os_stat. rewrite (lookup_str_ok fs _ Q) by auto.
+        rewrite EG. reflexivity.
+      * intros p Hp. rewrite EQ in Hp. destruct (within_snoc p (D ++ q) c Hp) as [E|HW].
         -- rewrite <- EQ in E. subst p. exact EG.
-        -- apply HP. split; [exact Hp|]. intros E. subst p. rewrite EQ in HW.
+        -- apply HP. split; [rewrite EQ; exact Hp|]. intros E. subst p. rewrite EQ in HW.
            apply within_length in HW. rewrite app_length in HW. simpl in HW. lia.
-    + (* it does not exist *)
-      assert (ES : exists e, os_stat cwd fs (render true Q) = inl e).
-      { unfold os_stat. rewrite lookup_render by auto.
+    + assert (ES : exists e, os_stat cwd fs (mk (q ++ [c])) = inl e).
+      { unfold os_stat. rewrite (lookup_str fs _ Q) by auto.
         destruct (walk_parents fs [] Q); [eauto|]. rewrite EG. eauto. }
       destruct ES as [e ES].
-      assert (EP : parent_str (render true Q) = render' Q').
-      { rewrite EQ. rewrite render_true by (destruct Q'; discriminate).
-        apply parent_str_render_snoc. auto. }
-      (* the parent *)
       assert (HPAR : exists fs1,
-        (if nonempty (render' Q') then mkdir_all f cwd fs (render' Q') else (fs, WOk)) = (fs1, WOk) /\
-        (forall p, within p Q' -> get fs1 p = Some Dir) /\
-        ext (fun p n => n = Dir /\ within p Q') fs fs1).
-      { destruct Q' as [|d Q''] eqn:EQ'.
-        - exists fs. simpl. split; [reflexivity|]. split; [|apply ext_refl].
-          intros p Hp. apply within_nil in Hp. subst. reflexivity.
-        - rewrite <- EQ' in *.
-          assert (Hne : nonempty (render' Q') = true) by (rewrite EQ'; reflexivity).
-          rewrite Hne. rewrite <- render_true by (rewrite EQ'; discriminate).
-          apply (IH Q' f fs); auto; try lia.
-          + intros p x Hg Hp. eapply H1; eauto. rewrite EQ. destruct Hp as [r ->].
-            exists (r ++ [c]). rewrite app_assoc. reflexivity.
-          + intros p Hp Hg k Hk. eapply H2; eauto. rewrite EQ. destruct Hp as [r ->].
-            exists (r ++ [c]). rewrite app_assoc. reflexivity. }
+        (if nonempty (parent_str (mk (q ++ [c]))) then mkdir_all f cwd fs (parent_str (mk (q ++ [c]))) else (fs, WOk))
+          = (fs1, WOk) /\
+        (forall p, within p (D ++ q) -> get fs1 p = Some Dir) /\
+        ext (fun p n => n = Dir /\ within p (D ++ q)) fs fs1).
+      { destruct (mk_parent q c Hq) as [EP|[EP Eq0]].
+        - assert (HN : nonempty (parent_str (mk (q ++ [c]))) = true)
+            by (rewrite EP; apply nonempty_true; auto).
+          pose proof (parent_str_shorter _ HN) as HS. rewrite HN, EP in *.
+          apply IH; auto; try lia.
+          + intros p x Hg Hp. eapply H1; eauto. apply within_D_app. exact Hp.
+          + intros p Hp Hg k Hk. eapply H2; eauto. apply within_D_app. exact Hp.
+        - rewrite EP. simpl. subst q. rewrite app_nil_r. exists fs. split; [reflexivity|].
+          split; [|apply ext_refl]. intros p Hp. apply HD. exact Hp. }
       destruct HPAR as [fs1 [EM [HD1 HE1]]].
       assert (EG1 : get fs1 Q = None).
       { destruct (HE1 Q) as [E|[_ [x [_ [_ HW]]]]]; [congruence|].
@@ -225,16 +217,16 @@ Proof.
       assert (HK : forall k, proper k Q -> get fs1 k = Some Dir).
       { intros k Hk. apply HD1. rewrite EQ in Hk. eapply proper_snoc; eauto. }
       exists ((Q, Dir) :: fs1). split; [|split].
-      * rewrite mkdir_all_S. rewrite ES. cbv zeta. rewrite EP, EM. unfold os_mkdir.
-        rewrite lookup_render_ok by auto. rewrite EG1. reflexivity.
+      * rewrite mkdir_all_S. rewrite ES. cbv zeta. rewrite EM. unfold os_mkdir.
+        rewrite (lookup_str_ok fs1 _ Q) by auto. rewrite EG1. reflexivity.
       * intros p Hp. pose proof (get_none_nonroot _ _ EG1) as HQ.
-        destruct (within_snoc p Q' c) as [E|HW]; [rewrite <- EQ; exact Hp| |].
+        rewrite EQ in Hp. destruct (within_snoc p (D ++ q) c Hp) as [E|HW].
         -- rewrite <- EQ in E. subst p. apply get_cons_same. auto.
         -- rewrite get_cons_other; auto. intros E. subst p. rewrite EQ in HW.
            apply within_length in HW. rewrite app_length in HW. simpl in HW. lia.
       * eapply ext_trans.
         -- eapply ext_weaken; [|exact HE1]. intros p x [-> HW]. split; auto.
-           rewrite EQ. destruct HW as [r ->]. exists (r ++ [c]). rewrite app_assoc. reflexivity.
+           apply within_D_app. exact HW.
         -- apply ext_new; auto. split; [reflexivity|apply within_refl].
 Qed.
 
@@ -244,18 +236,13 @@ Variables (g : guard) (fl : oflags) (dir : bytes).
 Hypothesis Hpass : forall fp, is_abs fp = false -> fp <> dotdot -> has_prefix dotdot_sep fp = false ->
                               rejected g fp = false.
 Hypothesis Hx : excl fl.
-Hypothesis Ha : is_abs dir = true.
-Let D := resolve cwd dir.
-Hypothesis HDn : Forall nul_free D.
-
-Lemma D_real : Forall real D.
-Proof. apply resolve_abs_real. exact Ha. Qed.
+Hypothesis mk_join : forall p, p <> [] -> okq p -> join dir (join_sep p) = mk p.
 
 Definition added (P : path) (s : bytes) (q : path) (n : node) : Prop :=
   (q = P /\ n = File s) \/ (n = Dir /\ proper q P).
 
 Lemma write_one_good fs p s :
-  p <> [] -> Forall real p -> Forall nul_free p ->
+  p <> [] -> Forall real p -> Forall nul_free p -> dir_exists fs D ->
   (forall q x, get fs q = Some x -> proper q (D ++ p) -> x = Dir) ->
   (forall q, proper q (D ++ p) -> get fs q <> None -> forall k, proper k q -> get fs k = Some Dir) ->
   get fs (D ++ p) = None ->
@@ -264,15 +251,12 @@ Lemma write_one_good fs p s :
               (forall q, proper q (D ++ p) -> get fs' q = Some Dir) /\
               ext (added (D ++ p) s) fs fs'.
 Proof.
-  intros Hne HR HN H1 H2 H3.
+  intros Hne HR HN HDe H1 H2 H3.
+  assert (Hok : okq p) by (split; auto).
   destruct (snoc_cases p) as [->|[p' [c Ep]]]; [contradiction|].
   set (P := D ++ p) in *. set (Q := D ++ p').
   assert (EP : P = Q ++ [c]) by (unfold P, Q; rewrite Ep, app_assoc; reflexivity).
-  assert (HRP : Forall real P) by (apply Forall_app; split; [apply D_real|auto]).
-  assert (HNP : Forall nul_free P) by (apply Forall_app; split; auto).
-  assert (HRQ : Forall real Q) by (rewrite EP in HRP; apply Forall_app in HRP; apply HRP).
-  assert (HNQ : Forall nul_free Q) by (rewrite EP in HNP; apply Forall_app in HNP; apply HNP).
-  assert (Hc : real c) by (rewrite EP in HRP; apply Forall_app in HRP; destruct HRP as [_ X]; apply (Forall_inv X)).
+  assert (Hok' : okq p') by (apply (okq_snoc p' c); rewrite <- Ep; exact Hok).
   assert (HQP : forall k, within k Q -> proper k P).
   { intros k Hk. split.
     - rewrite EP. destruct Hk as [r ->]. exists (r ++ [c]). rewrite app_assoc. reflexivity.
@@ -284,20 +268,21 @@ Proof.
   rewrite ERF in G1, G2, G3.
   unfold write_one. cbn [fst snd]. unfold from_slash.
   rewrite clean_render_false by auto. rewrite (Hpass _ G1 G2 G3).
-  rewrite <- ERF. rewrite (join_abs cwd) by auto. fold D. fold P.
-  rewrite EP. rewrite dir_of_render_snoc by auto.
+  rewrite mk_join by auto.
+  assert (EDir : dir_of (mk p) = mk p') by (rewrite Ep; apply mk_dir; rewrite <- Ep; exact Hok).
+  rewrite EDir.
   (* MkdirAll *)
-  destruct (mkdir_all_good (length Q) Q (S (length (render true Q))) fs) as [fs1 [EM [HD1 HE1]]]; auto.
-  { pose proof (length_render_true Q HRQ). lia. }
+  destruct (mkdir_all_good p' (S (length (mk p'))) fs) as [fs1 [EM [HD1 HE1]]]; auto.
   { intros q x Hg Hq. eapply H1; eauto. }
   { intros q Hq Hg k Hk. eapply H2; eauto. }
-  rewrite EM. rewrite <- EP.
+  fold Q in HD1, HE1. rewrite EM.
   assert (EG1 : get fs1 P = None).
   { destruct (HE1 P) as [E|[_ [x [_ [_ HW]]]]]; [congruence|].
     apply HQP in HW. destruct HW as [_ N]. contradiction. }
   assert (HK : forall k, proper k P -> get fs1 k = Some Dir).
   { intros k Hk. apply HD1. rewrite EP in Hk. eapply proper_snoc; eauto. }
-  unfold os_open. rewrite lookup_render_ok by auto. rewrite EG1.
+  unfold os_open. rewrite (lookup_str_ok fs1 (mk p) P) by (auto; apply mk_res; auto).
+  rewrite EG1.
   destruct Hx as [Hcr Hex]. rewrite Hcr.
   pose proof (get_none_nonroot _ _ EG1) as HPne.
   rewrite os_write_new by auto.
@@ -372,7 +357,7 @@ Proof.
     { intros q Hq Hg k Hk. destruct (within_split q D p (proj1 Hq)) as [HW|HB].
       - apply I1. eapply proper_within_dir; eauto.
       - eapply I3; eauto. }
-    destruct (write_one_good fs p s Pne PR PN C1 C2 C3) as [fs1 [E1 [F1 [F2 F3]]]].
+    destruct (write_one_good fs p s Pne PR PN I1 C1 C2 C3) as [fs1 [E1 [F1 [F2 F3]]]].
     (* the invariant afterwards *)
     assert (HI1 : inv (p :: done) fs1).
     { split; [|split].
@@ -397,3 +382,177 @@ Proof.
 Qed.
 
 End Dirs.
+
+(* ------------------------------------------------------------------ the two string builders *)
+
+(* absolute directory string: "/d1/.../dn/q1/.../qm" *)
+Definition mk_abs (D q : list bytes) : bytes := render true (D ++ q).
+(* relative directory string whose cleaned form has the elements W0 *)
+Definition mk_rel (W0 q : list bytes) : bytes := render false (W0 ++ q).
+
+Lemma shape_app_real W q : shape W -> Forall real q -> shape (W ++ q).
+Proof.
+  intros [k [X [HX ->]]] Hq. exists k, (X ++ q). split; [apply Forall_app; auto|].
+  rewrite app_assoc. reflexivity.
+Qed.
+
+Lemma render_false_nonempty W : Forall elem W -> render false W <> [].
+Proof.
+  intros H. destruct W as [|c W]; [discriminate|]. apply (join_sep_nonempty (c :: W)); [discriminate|auto].
+Qed.
+
+Lemma render_true_nonempty P : render true P <> [].
+Proof. discriminate. Qed.
+
+Section Builders.
+Variable cwd : path.
+
+Section Abs.
+Variable D : path.
+Hypothesis HDr : Forall real D.
+Hypothesis HDn : Forall nul_free D.
+
+Lemma mk_abs_nul q : okq q -> has_nul (mk_abs D q) = false.
+Proof. intros [_ H]. apply has_nul_render_true. apply Forall_app. auto. Qed.
+
+Lemma mk_abs_ne q : okq q -> mk_abs D q <> [].
+Proof. intros _. apply render_true_nonempty. Qed.
+
+Lemma mk_abs_res q : okq q -> resolve cwd (mk_abs D q) = D ++ q.
+Proof. intros [H _]. apply resolve_render_true. apply Forall_app. auto. Qed.
+
+Lemma mk_abs_parent q c : okq (q ++ [c]) ->
+  parent_str (mk_abs D (q ++ [c])) = mk_abs D q \/ (parent_str (mk_abs D (q ++ [c])) = [] /\ q = []).
+Proof.
+  intros [H _]. apply Forall_app in H. destruct H as [Hq Hc]. pose proof (Forall_inv Hc) as Hc1.
+  unfold mk_abs. rewrite app_assoc. rewrite render_true by (destruct (D ++ q); discriminate).
+  rewrite parent_str_render_snoc by auto.
+  destruct (D ++ q) as [|x l] eqn:E.
+  - right. split; [reflexivity|]. apply app_eq_nil in E. apply E.
+  - left. rewrite render_true by discriminate. reflexivity.
+Qed.
+
+Lemma mk_abs_dir q c : okq (q ++ [c]) -> dir_of (mk_abs D (q ++ [c])) = mk_abs D q.
+Proof.
+  intros [H _]. apply Forall_app in H. destruct H as [Hq Hc]. pose proof (Forall_inv Hc) as Hc1.
+  unfold mk_abs. rewrite app_assoc. apply dir_of_render_snoc; auto. apply Forall_app. auto.
+Qed.
+End Abs.
+
+Section Rel.
+Variable W0 : list bytes.
+Hypothesis HW : shape W0.
+Hypothesis HWn : Forall nul_free W0.
+
+Lemma rel_elems q : Forall real q -> Forall elem (W0 ++ q).
+Proof. intros H. apply shape_elems, shape_app_real; auto. Qed.
+
+Lemma mk_rel_nul q : okq q -> has_nul (mk_rel W0 q) = false.
+Proof. intros [_ H]. apply has_nul_render_false. apply Forall_app. auto. Qed.
+
+Lemma mk_rel_ne q : okq q -> mk_rel W0 q <> [].
+Proof. intros [H _]. apply render_false_nonempty. apply rel_elems. auto. Qed.
+
+Lemma mk_rel_res q : okq q -> resolve cwd (mk_rel W0 q) = resolve cwd (render false W0) ++ q.
+Proof.
+  intros [H _]. unfold mk_rel. induction q as [|c q IH] using rev_ind.
+  - rewrite !app_nil_r. reflexivity.
+  - apply Forall_app in H. destruct H as [Hq Hc]. rewrite app_assoc.
+    rewrite resolve_rel_snoc_real by (try apply rel_elems; auto; apply (Forall_inv Hc)).
+    rewrite IH by auto. rewrite <- app_assoc. reflexivity.
+Qed.
+
+Lemma mk_rel_parent q c : okq (q ++ [c]) ->
+  parent_str (mk_rel W0 (q ++ [c])) = mk_rel W0 q \/ (parent_str (mk_rel W0 (q ++ [c])) = [] /\ q = []).
+Proof.
+  intros [H _]. apply Forall_app in H. destruct H as [Hq Hc]. pose proof (Forall_inv Hc) as Hc1.
+  unfold mk_rel. rewrite app_assoc.
+  assert (ER : render false ((W0 ++ q) ++ [c]) = join_sep ((W0 ++ q) ++ [c])) by (destruct (W0 ++ q); reflexivity).
+  rewrite ER. rewrite parent_str_rel by (right; auto).
+  destruct (W0 ++ q) as [|x l] eqn:E.
+  - right. split; [reflexivity|]. apply app_eq_nil in E. apply E.
+  - left. reflexivity.
+Qed.
+
+Lemma mk_rel_dir q c : okq (q ++ [c]) -> dir_of (mk_rel W0 (q ++ [c])) = mk_rel W0 q.
+Proof.
+  intros [H _]. unfold mk_rel. rewrite app_assoc. apply dir_of_rel.
+  rewrite <- app_assoc. apply shape_app_real; auto.
+Qed.
+End Rel.
+
+(* Join(dir, name) for a relative directory string: the elements of Clean(dir), then the
+   name's *)
+Lemma join_rel_shape dir :
+  is_abs dir = false ->
+  exists W0, shape W0 /\
+    (forall p, Forall real p -> join dir (render false p) = render false (W0 ++ p)) /\
+    resolve cwd (render false W0) = resolve cwd dir /\
+    (has_nul dir = false -> Forall nul_free W0).
+Proof.
+  intros Ha. destruct dir as [|b d].
+  - exists []. split; [exists 0, []; auto|]. split; [|split; [reflexivity|constructor]].
+    intros p Hp. unfold join. simpl app.
+    destruct (render false p) eqn:E; [exfalso; eapply (render_false_nonempty p); eauto;
+      eapply Forall_impl; [|exact Hp]; intros c Hc; right; auto|].
+    rewrite <- E. destruct p as [|c p]; [reflexivity|]. apply (clean_render_false (c :: p)); [discriminate|auto].
+  - pose proof (cinv_run false (split_sep (b :: d)) ([], 0) (split_sep_sep_free_all _) (cinv_init _))
+      as [R [E [HR _]]].
+    destruct (clean_run false (split_sep (b :: d)) ([], 0)) as [out dd] eqn:ER. simpl in E.
+    exists (rev out).
+    assert (HS : shape (rev out)).
+    { exists dd, (rev R). split; [apply Forall_rev; auto|]. subst out.
+      rewrite rev_app_distr, rev_repeat. reflexivity. }
+    split; [exact HS|]. split; [|split].
+    + intros p Hp. unfold join. unfold clean.
+      destruct ((b :: d) ++ SEP :: render false p) as [|x t] eqn:E0; [discriminate|]. rewrite <- E0.
+      rewrite is_abs_app_nonempty by discriminate. rewrite Ha.
+      rewrite split_sep_app, clean_run_app, ER.
+      destruct p as [|c p].
+      * simpl render at 1. rewrite app_nil_r. reflexivity.
+      * change (render false (c :: p)) with (join_sep (c :: p)).
+        assert (HSf : Forall sep_free (c :: p)) by (eapply Forall_impl; [|exact Hp]; apply real_sep_free).
+        rewrite split_sep_join_sep by (auto; discriminate).
+        rewrite clean_run_reals by auto. cbn [fst]. rewrite rev_app_distr, rev_involutive. reflexivity.
+    + assert (EC : clean (b :: d) = render false (rev out)).
+      { unfold clean. rewrite Ha, ER. reflexivity. }
+      rewrite <- EC. apply resolve_clean.
+    + intros HN. apply Forall_forall. intros x Hx. apply in_rev in Hx.
+      assert (Hx' : In x (fst (clean_run false (split_sep (b :: d)) ([], 0)))) by (rewrite ER; exact Hx).
+      destruct (clean_run_elems _ _ _ _ Hx') as [[]|H].
+      intros HI. apply (mem_byte_in_false NUL (b :: d) HN). apply (split_sep_incl _ _ H). exact HI.
+Qed.
+
+(* the good-archive lemma for a directory named by ANY NUL-free string *)
+Theorem write_gen_good_dir g fl dir :
+  (forall fp, is_abs fp = false -> fp <> dotdot -> has_prefix dotdot_sep fp = false -> rejected g fp = false) ->
+  excl fl -> Forall real cwd -> Forall nul_free cwd -> has_nul dir = false ->
+  forall todo fs,
+    inv (resolve cwd dir) [] fs -> good_paths (map fst todo) ->
+    exists fs', write_gen g fl cwd fs dir (map entry_of todo) = (fs', WOk) /\
+                inv (resolve cwd dir) (map fst todo) fs'.
+Proof.
+  intros Hpass Hx Hcr Hcn Hdn todo fs HI HG.
+  set (D := resolve cwd dir) in *.
+  assert (HDr : Forall real D) by (apply resolve_real; auto).
+  assert (HDn : Forall nul_free D) by (apply resolve_nul_free; auto).
+  destruct (is_abs dir) eqn:Ea.
+  - apply (write_gen_good cwd D (mk_abs D)
+             (mk_abs_nul D HDn) (mk_abs_ne D) (mk_abs_res D HDr) (mk_abs_parent D) (mk_abs_dir D HDr)
+             g fl dir Hpass Hx) with (done := []); auto.
+    intros p Hne [Hp _]. unfold mk_abs.
+    replace (join_sep p) with (render false p) by (destruct p; [contradiction|reflexivity]).
+    apply join_abs; auto.
+  - destruct (join_rel_shape dir Ea) as [W0 [HS [HJ [HRes HNul]]]].
+    assert (HWn : Forall nul_free W0) by auto.
+    assert (ERes : forall q, okq q -> resolve cwd (mk_rel W0 q) = D ++ q).
+    { intros q Hq. rewrite (mk_rel_res W0 HS q Hq). rewrite HRes. reflexivity. }
+    apply (write_gen_good cwd D (mk_rel W0)
+             (mk_rel_nul W0 HWn) (mk_rel_ne W0 HS) ERes (mk_rel_parent W0) (mk_rel_dir W0 HS)
+             g fl dir Hpass Hx) with (done := []); auto.
+    intros p Hne [Hp _]. unfold mk_rel.
+    replace (join_sep p) with (render false p) by (destruct p; [contradiction|reflexivity]).
+    apply HJ; auto.
+Qed.
+
+End Builders.
